@@ -190,3 +190,79 @@ fn reported<P: Provenance>(pg: &Program, provenance: P, swap: bool) -> Vec<Optio
         }
     }}}
 }
+
+// ---- (c) generated rule programs ----------------------------------------------------------------------------
+// Three uncertain inputs (a p1 b), (a p2 b), (a p3 b); derived predicates m1, m2, g.  Rule pool: every copy rule
+// x -> y and every two-premise rule (x & y) -> z of the shapes below (26 rules); programs = every subset of <= 3
+// rules and a third of the subsets of 4 (thorough: all of them), in pool order and in reverse order (the order decides in which round a fact is re-derived: e.g.
+// { p1&p2 -> g, p1 -> m1, m1 -> g } re-derives g in round 2 by a proof that uses FEWER inputs).
+fn pool() -> Vec<(Vec<&'static str>, &'static str)> {
+    let mut v: Vec<(Vec<&'static str>, &'static str)> = Vec::new();
+    for p in ["p1", "p2", "p3"] { for d in ["m1", "m2", "g"] { v.push((vec![p], d)); } }
+    for (a, b) in [("m1", "m2"), ("m2", "m1"), ("m1", "g"), ("m2", "g")] { v.push((vec![a], b)); }
+    for (a, b) in [("p1", "p2"), ("p1", "p3"), ("p2", "p3")] { v.push((vec![a, b], "m1")); v.push((vec![a, b], "g")); }
+    for p in ["p1", "p2", "p3"] { v.push((vec!["m1", p], "g")); v.push((vec!["m1", p], "m2")); }
+    v.push((vec!["m1", "m2"], "g"));
+    v
+}
+fn install(r: &mut Reasoner, rules: &[(Vec<&'static str>, &'static str)]) {
+    for (prem, concl) in rules {
+        let premises: Vec<_> = prem.iter().map(|p| (v("X"), c(r, p), v("Y"))).collect();
+        let head = c(r, concl);
+        r.add_rule(rule(premises, vec![(v("X"), head, v("Y"))]));
+    }
+}
+const GEN_PROBS: [[f64; 3]; 2] = [[0.3, 0.6, 0.9], [0.5, 0.25, 0.5]];
+const DERIVED: [&str; 3] = ["m1", "m2", "g"];
+
+fn check_generated(rules: &[(Vec<&'static str>, &'static str)], probs: &[f64; 3]) {
+    // oracle: every subset of the uncertain inputs through the plain reasoner
+    let mut want = [0.0f64; 3];
+    for world in 0u32..8 {
+        let mut weight = 1.0;
+        let mut r = Reasoner::new();
+        for i in 0..3 { if world & (1 << i) != 0 { weight *= probs[i]; r.add_abox_triple("a", ["p1", "p2", "p3"][i], "b"); } else { weight *= 1.0 - probs[i]; } }
+        install(&mut r, rules);
+        r.infer_new_facts_semi_naive();
+        for (qi, d) in DERIVED.iter().enumerate() { if !r.query_abox(Some("a"), Some(d), Some("b")).is_empty() { want[qi] += weight; } }
+    }
+    let run = |mode: &str, got: Vec<Option<f64>>| {
+        for (qi, d) in DERIVED.iter().enumerate() {
+            match got[qi] {
+                Some(g) => assert!((g - want[qi]).abs() < 1e-9, "[{}] rules {:?}, input probabilities {:?}: P(a {} b) reported {} but the possible-worlds probability is {}", mode, rules, probs, d, g, want[qi]),
+                None => assert!(want[qi] == 0.0, "[{}] rules {:?}: (a {} b) is derivable in some world (probability {}) but was not derived", mode, rules, d, want[qi]),
+            }
+        }
+    };
+    fn reported_gen<P: Provenance>(rules: &[(Vec<&'static str>, &'static str)], probs: &[f64; 3], provenance: P) -> Vec<Option<f64>> {
+        let mut r = Reasoner::new();
+        for i in 0..3 { r.add_tagged_triple("a", ["p1", "p2", "p3"][i], "b", probs[i]); }
+        install(&mut r, rules);
+        let (_new, tags) = r.infer_new_facts_with_provenance(provenance);
+        DERIVED.iter().map(|d| {
+            if r.query_abox(Some("a"), Some(d), Some("b")).is_empty() { return None; }
+            let t = Triple { subject: enc(&r, "a"), predicate: enc(&r, d), object: enc(&r, "b") };
+            Some(tags.provenance().recover_probability(&tags.get_tag(&t)))
+        }).collect()
+    }
+    run("dnf", reported_gen(rules, probs, DnfWmcProvenance::new()));
+    run("sdd", reported_gen(rules, probs, SddProvenance::new()));
+}
+
+#[test] fn w__exact_modes__generated_programs_equal_possible_worlds_probability() {
+    let pool = pool();
+    let thorough = std::env::var("VERIF_TIER").map_or(false, |v| v == "thorough");
+    let n = pool.len();
+    let mut count = 0u64;
+    let mut go = |idx: &[usize]| {
+        let rules: Vec<_> = idx.iter().map(|i| pool[*i].clone()).collect();
+        let mut rev = rules.clone(); rev.reverse();
+        // both probability sets on every 4th program, the first set on the others (thorough: both everywhere)
+        count += 1;
+        check_generated(&rules, &GEN_PROBS[0]);
+        check_generated(&rev, &GEN_PROBS[0]);
+        if thorough || count % 4 == 0 { check_generated(&rules, &GEN_PROBS[1]); }
+    };
+    for a in 0..n { go(&[a]); for b in a + 1..n { go(&[a, b]); for c in b + 1..n { go(&[a, b, c]); for d in c + 1..n { if thorough || (a + b + c + d) % 3 == 0 { go(&[a, b, c, d]); } } } } }
+    assert!(count > 2000);
+}
